@@ -273,7 +273,7 @@ ADDENDA2 = {
     "C07": " Added: D9.norm for the Sequence grid (NaN-seeded running maximum, F74); D10.alloutputs (monotone accumulation over outputs); D11.limits (C08-D1.store shared).",
     "C09": " Added: D10.keep (registrations with delivered samples survive a request for candidates, F81); D11.nodes; D12.restrict (waiting samples of a copy keep the copied output range, shared with C11); D2 also asks that waiting samples are subtracted from the candidates (F91); D4.relations now evaluates the relations getSubGraph walks (F24 fixed).",
     "C11": " Added: D9.moved (never-null owning members re-seated by user-provided moves, F78); D8 also decides the first output (F79).",
-    "C14": " Added: D15.family, D16.output (propositional check that output == -1 cannot reach a Global routine), D17.rawlen, D18.nopoints, D19.modes (F72-F80).",
+    "C14": " Added: D15.family, D16.output (propositional check that output == -1 cannot reach a Global routine), D17.rawlen, D18.nopoints, D19.modes, D20.tablebound (level + 1 <= getNumLevels() on the side that keeps using a table, symbolic normal form), D21.cwrap (C entry points that wrap a read catch both exception types, F93) (F72-F80).",
     "C15": " Added: the snapshot test is reached in every iteration (per-iteration must-pass); D6.forward (the sampling form is forwarded unchanged between instantiations).",
     "C16": " Added: D10.init (scalar members of every constructor, library-wide), D11.readonly, D12.coefflayout (symbolic layout pairs of writer and setter), D13.xfile, D14.limits, D15.rejected (F64-F66, F82-F84).",
     "C17": " Added: D9.header (header counts are vector sizes), D10.reopen (streams that outlive an attempt are closed on every way out; positive control in instantiate/controls.cpp), D5 also asks for the parked samples (known finding F67).",
